@@ -2282,10 +2282,12 @@ class Head(Expr):
             ]
             return type(self.frame)(*operands)
         if isinstance(self.frame, Head):
+            # The inner head decides which partitions we look at, its
+            # result only has a single partition
             return Head(
                 self.frame.frame,
                 min(self.n, self.frame.n),
-                self.operand("npartitions"),
+                self.frame.operand("npartitions"),
             )
 
     def _simplify_up(self, parent, dependents):
